@@ -335,3 +335,16 @@ HARD_CODES = [
     ("hard-mulmod", bytes.fromhex("5b60403560203560003509565b00")),
     ("hard-mulmod-branch", bytes.fromhex("60403560203560003509600c575b005b00")),
 ]
+
+
+def long_block_codes():
+    """blocks whose symbolic stack grows large (limits on the simulated stack, quadratic bookkeeping):
+    n x push0 / n x dup1 / alternating push-dup-swap, ending in stop or in a jump over the pile"""
+    out = []
+    for n in (1023, 1024, 1025, 1026, 2000):
+        out.append((f"long-push0-{n}", b"\x5f" * n + b"\x00"))
+        out.append((f"long-dup1-{n}", b"\x00\x5b\x5f" + b"\x80" * n + b"\x00"))
+    out.append(("long-mixed-1500", (b"\x5f\x80\x90") * 500 + b"\x56\x5b\x00"))
+    out.append(("long-pops-1500", b"\x50" * 1500 + b"\x00"))
+    out.append(("long-swap16-1200", (b"\x9f\x50") * 600 + b"\x00"))
+    return out
